@@ -39,6 +39,11 @@ CHECKS = {
   text="Generated-input search over projects and schedules: each generated project is built by the real CLI binary in several fresh processes (natural map-order randomness) and by the hook-enabled build under generated enumeration orders (reverse and drawn seeds for source files, graph nodes by kind, loaded packages, import sets); exit status, spec bytes and routes bytes must be identical, the spec must not depend on the routing engine, and with the date comment enabled only the date line may differ between runs. Sampling of projects and orders; only the four instrumented enumeration points are controlled.",
   note="Trusts: rapid; the verif-tagged build differs from the production build only by verifhook.Permute at four call sites (MANIFEST.hooks.source_commits); other map iterations are reached by natural runs only.",
   ref="6/C13", engine="rapid"),
+ "C20": dict(
+  technique="property-based testing with rapid over configuration documents: valid base + single mutation from a constraint catalogue transcribed from the struct tags, JSON5 renderings, glob subsets; real CLI runs; oracle = constraint table + file-system observations",
+  text="Generated-input search over configuration documents: every case is a generated project plus a configuration obtained from a valid one by at most one catalogue mutation (each required section/field dropped, unknown engine/version, malformed URL/e-mail/permission string/security scheme fields, wrong JSON types, broken documents, harmless variations), rendered as JSON or JSON5, optionally with one controller outside the globs and a second run with other permissions. The real CLI is run; the constraint table predicts accept/reject; rejection must come with a message naming the field, before any source is parsed (a glob-matched file with a syntax error must never be reported) and without writing anything; acceptance must put artefacts at the configured paths with the configured mode, package name, engine and version, and only glob-matched files may contribute. Sampling over projects; the mutation catalogue itself is finite and fully enumerated by the thorough tier many times.",
+  note="Trusts: rapid; the mutation catalogue in props/process/c20_test.go is a transcription of definitions/structs.go tags; umask 022 set by the harness; the field may be named by JSON key or Go field name.",
+  ref="6/C20"),
 }
 
 NOT_APPLICABLE = []
